@@ -13,8 +13,12 @@ CONSTANT MaxSteps
 VARIABLE hist
 gvars == <<vars, hist>>
 
-Act(a, s, c, k) == [a |-> a, s |-> s, c |-> c, k |-> k]
-Log(a, s, c, k) == hist' = Append(hist, Act(a, s, c, k))
+Act(a, s, c, k, v) == [a |-> a, s |-> s, c |-> c, k |-> k, v |-> v]
+Log(a, s, c, k) == hist' = Append(hist, Act(a, s, c, k, "-"))
+\* consecutive next frames carry different top-level field sets (errors, then plain data, then extensions, ...)
+GenV(k) == IF k = "next" THEN <<"de", "d", "dx">>[(nframes % 3) + 1] ELSE "-"
+\* the upstream closes with a close frame (code 4400) in the idle = zero configurations, by dropping TCP otherwise
+GenCode == IF cfg.idle = "zero" THEN 4400 ELSE 0
 
 \* all idle timers that are pending expire (the harness sleeps idle + slack)
 IdleWait ==
@@ -33,8 +37,9 @@ GenEnv ==
                      \/ SrvReject(c) /\ Log("Reject", 0, c, "")
                      \/ SrvAck(c) /\ Log("Ack", 0, c, "")
                      \/ SrvInitFail(c) /\ Log("InitFail", 0, c, "")
-                     \/ SrvClose(c) /\ Log("Close", 0, c, "")
-  \/ \E c \in Conn, s \in Subs, k \in Kinds : SrvSend(c, s, k) /\ Log("Send", s, c, k)
+                     \/ SrvClose(c, GenCode) /\ Log("Close", 0, c, IF GenCode = 0 THEN "" ELSE "4400")
+                     \/ SrvMute(c) /\ Log("Mute", 0, c, "")
+  \/ \E c \in Conn, s \in Subs, k \in Kinds : SrvSend(c, s, k, GenV(k)) /\ hist' = Append(hist, Act("Send", s, c, k, GenV(k)))
   \/ IdleWait /\ Log("IdleWait", 0, 0, "")
 
 GenInit == Init /\ hist = <<>>
@@ -48,7 +53,7 @@ GenSpec == GenInit /\ [][GenNext]_gvars
 \* one schedule per quiescent state: configuration, environment steps, and what the spec predicts at that point
 Emit ==
   IF Quiescent /\ Len(hist) > 0
-  THEN PrintT(ToJson([key |-> cfg.key, idle |-> cfg.idle, steps |-> hist,
+  THEN PrintT(ToJson([key |-> cfg.key, idle |-> cfg.idle, bad |-> cfg.bad, ping |-> cfg.ping, steps |-> hist,
                       dialler |-> [c \in Conn |-> conn[c].dialler],
                       reach |-> [c \in Conn |-> conn[c].srv # "none"],   \* the dial reaches the server (not pre-cancelled)
                       exp |-> [s \in Subs |-> [pc |-> sub[s].pc, err |-> sub[s].err, blame |-> sub[s].blame, h |-> hlog[s]]]]))
